@@ -74,32 +74,28 @@ func (s *Store) compactMaybe(higher Snapshot,
 
 	var sizeBefore, sizeAfter int64
 
-	if len(slocs) > 0 {
-		mref := slocs[0].mref
-		if mref != nil && mref.fref != nil {
-			var finfo os.FileInfo
-			if partialCompactStart == 0 {
-				finfo, err = s.removeFileOnClose(mref.fref)
-			} else {
-				finfo, err = mref.fref.file.Stat()
-			}
-			if err == nil && len(finfo.Name()) > 0 {
-				sizeBefore = finfo.Size() // Fetch old file size.
-			}
+	// The file is known through the footer's own segments or, when
+	// only child collections hold data, through those of a child.
+	if fref := footer.fileRef(); fref != nil {
+		var finfo os.FileInfo
+		if partialCompactStart == 0 {
+			finfo, err = s.removeFileOnClose(fref)
+		} else {
+			finfo, err = fref.file.Stat()
+		}
+		if err == nil && len(finfo.Name()) > 0 {
+			sizeBefore = finfo.Size() // Fetch old file size.
 		}
 	}
 
-	slocs, _ = footer.segmentLocs()
+	footer.segmentLocs()
 
 	defer footer.DecRef()
 
-	if len(slocs) > 0 {
-		mref := slocs[0].mref
-		if mref != nil && mref.fref != nil {
-			finfo, err := mref.fref.file.Stat()
-			if err == nil && len(finfo.Name()) > 0 {
-				sizeAfter = finfo.Size() // Fetch new file size.
-			}
+	if fref := footer.fileRef(); fref != nil {
+		finfo, err := fref.file.Stat()
+		if err == nil && len(finfo.Name()) > 0 {
+			sizeAfter = finfo.Size() // Fetch new file size.
 		}
 	}
 
